@@ -170,6 +170,10 @@ def group_results(out):
     for l in out.split("\n"):
         if not l.startswith(("R ", "S ", "F ")):
             continue
+        # crashes are reported as 'R id CRASH sig=..' by vh and 'R id #k CRASH why=..' by the model driver
+        mm = re.match(r"(R \S+)(?: #\d+)? CRASH\b.*", l)
+        if mm:
+            l = mm.group(1) + " CRASH"
         parts = l.split(" ", 2)
         cid = parts[1]
         res.setdefault(cid, []).append(l)
